@@ -1,12 +1,12 @@
 # Prose for MANIFEST.json (kept next to the registry so both change together).
 HOOK_COMMITS = ['0e3f45b', '5d5e67b', 'cc90e8e', '79f97e5']
-NOTES = ("All checks are property-based tests / fuzzers: rapidcheck harnesses (props/*.cpp) and libFuzzer targets (fuzz/*.cpp) "
+NOTES = ("All checks are property-based tests / fuzzers: rapidcheck harnesses (props/*.cpp) and libFuzzer targets (the same sources compiled with -DVF_FUZZ: fz_*) "
          "with explicit oracles, run by ./verif, which rebuilds libpixman from /repo's working tree (variants plain, asan, tsan) "
          "on every invocation. Genuine defects found are listed in known_findings.json (fixed by 'fix:' commits in /repo, or "
          "known). VERIF_SEED seeds every process (splitmix of seed and process index).")
 ENGINES = [
     dict(name="rapidcheck", path="props/", serves_properties=[], kind_free_text="C++ property-based testing harnesses with shrinking; one process per core, seeds derived from VERIF_SEED"),
-    dict(name="libFuzzer", path="fuzz/", serves_properties=[], kind_free_text="coverage-guided fuzz targets sharing the oracles of the rapidcheck harnesses (clang -fsanitize=fuzzer,address)"),
+    dict(name="libFuzzer", path="props/", serves_properties=[], kind_free_text="coverage-guided fuzz targets sharing the oracles of the rapidcheck harnesses (clang -fsanitize=fuzzer,address)"),
 ]
 NOT_APPLICABLE = {}
 META = {}
